@@ -65,6 +65,35 @@ pub fn main_entry() {
         std::process::exit(2);
     }
     let id = args[1].clone();
+    if id == "serve" {
+        // vcheck serve <seconds>: the service + database stub for manual probing (prints the HTTP port)
+        let secs: u64 = args[2].parse().unwrap_or(60);
+        match srvkit::Server::start() {
+            Ok(s) => {
+                println!("PORT {}", s.port);
+                use std::io::Write;
+                let _ = std::io::stdout().flush();
+                let t0 = std::time::Instant::now();
+                while t0.elapsed().as_secs() < secs {
+                    std::thread::sleep(std::time::Duration::from_millis(500));
+                    if std::path::Path::new("/verif/target/serve.dump").exists() {
+                        let _ = std::fs::remove_file("/verif/target/serve.dump");
+                        for coll in ["adf-obdd.users", "adf-obdd.adf-problems"] {
+                            for d in s.stub.snapshot(coll) {
+                                println!("{coll}: {}", format!("{d}").chars().take(600).collect::<String>());
+                            }
+                        }
+                        let _ = std::io::stdout().flush();
+                    }
+                }
+                std::process::exit(0);
+            }
+            Err(e) => {
+                eprintln!("cannot start: {e}");
+                std::process::exit(2);
+            }
+        }
+    }
     if id == "fuzz-replay" {
         // vcheck fuzz-replay <target> <file>
         install_quiet_panic_hook();
